@@ -198,7 +198,8 @@ pub fn enabled(w: &World, cfg: &Cfg) -> Vec<Op> {
                     add(&mut v, Op::new(K::MReserve, i, 0, a, 0));
                     add(&mut v, Op::new(K::MTryReclaim, i, 0, a, 0));
                 }
-                for a in dedup_sorted(vec![0, 1, 2, c - l, c - l + 1].into_iter().filter(|&a| a <= 8).collect()) {
+                // (t - l: exactly what the whole allocation could still take - reclaim windows of reserve_inner)
+                for a in dedup_sorted(vec![0, 1, 2, c - l, c - l + 1, t.saturating_sub(l), t.saturating_sub(l) + 1].into_iter().filter(|&a| a <= 8).collect()) {
                     add(&mut v, Op::new(K::MExtend, i, 0, a, 0));
                 }
                 add(&mut v, Op::new(K::MPutU8, i, 0, 0, 0));
@@ -217,6 +218,11 @@ pub fn enabled(w: &World, cfg: &Cfg) -> Vec<Op> {
                 add(&mut v, Op::new(K::MExtendLie, i, 0, 1, 3));
                 add(&mut v, Op::new(K::MExtendLie, i, 0, 0, 1));
                 add(&mut v, Op::new(K::MExtendLie, i, 0, 2, c - l + 2));
+                if cfg.huge {
+                    // an unrepresentable lower bound together with items that would fit: must panic before appending anything
+                    add(&mut v, Op::new(K::MExtendLie, i, 0, c - l + 1, usize::MAX));
+                    add(&mut v, Op::new(K::MExtendLie, i, 0, 1, ISIZE_MAX + 1));
+                }
                 add(&mut v, Op::new(K::MExtendPanic, i, 0, c - l + 1, 0));
                 add(&mut v, Op::new(K::MExtendPanic, i, 0, 1, 0));
                 add(&mut v, Op::new(K::MExtendPanic, i, 0, c - l + 1, c - l + 2));
